@@ -70,14 +70,30 @@ def group_obs(g):
 
 
 def read_all(m, reads):
+    """One token per attribute read.  A name that is not a metadata field must raise AttributeError (the harness only reads fields and
+    names that are no attribute of the class at all); anything else escapes to the runner (!EXC:<class> for the whole case)."""
     out = []
     for f in reads:
         try: out.append(render(getattr(m, f)))
         except InvalidMetadata as e: out.append("E:" + e.field)
+        except AttributeError:
+            if f in SPEC_ADDED: raise
+            out.append("!EXC:AttributeError")
     return out
 
 
 def oracle(comp, s):
+    """verdict of one component on one string: [] = its documented exception, ["v"+str(result), ...] = accepted,
+    ["x"+class] = it raised something else (three-valued oracle of MetaModel3.v)"""
+    try:
+        return oracle2(comp, s)
+    except RecursionError:
+        return ["xRecursionError"]
+    except Exception as e:
+        return ["x" + type(e).__name__]
+
+
+def oracle2(comp, s):
     if comp == "0":
         try: return ["v" + str(SpecifierSet(s))]
         except InvalidSpecifier: return []
@@ -120,7 +136,7 @@ def observe(cmd, args):
         for k, v in raw.items(): toks += encode_value(k, v)
         toks += ["U" + k for k in unparsed]
         return json.dumps(toks)
-    if cmd in ("m.from_raw", "m.from_email"):
+    if cmd in ("m.from_raw", "m.from_email", "m.from_email_doc"):
         validate = args[0] == "T"
         data, unparsed, reads, doc = decode_tokens(args[1:])
         before = copy.deepcopy(data)
@@ -132,6 +148,30 @@ def observe(cmd, args):
             obs = "|".join(["OK"] + read_all(m, reads))
         if data != before: obs += "|CALLER-DICT-MODIFIED"
         return obs
+    if cmd == "m.heap":
+        # from_raw(validate=False) on the caller's dict, then attribute reads interleaved with in-place changes made by the caller (to
+        # its dict and to the list objects in it) and by the holder of returned lists; finally the caller's dict as it is then
+        data, _, _, _ = decode_tokens([t for t in args[1:] if t[:1] in "KSLIDPQ"])
+        m = Metadata.from_raw(data, validate=False)
+        out, last = ["OK"], {}
+        for t in args[1:]:
+            tag, body = t[:1], t[1:]
+            if tag not in "Radmh": continue
+            key, *items = body.split("\x1f")
+            if tag == "R":
+                try:
+                    v = getattr(m, body); last[body] = v; out.append(render(v))
+                except InvalidMetadata as e: out.append("E:" + e.field)
+                except AttributeError:
+                    if body in SPEC_ADDED: raise
+                    out.append("!EXC:AttributeError")
+            elif tag == "a": data[key] = list(items)
+            elif tag == "d": data.pop(key, None)
+            elif tag == "m":
+                if isinstance(data.get(key), list): data[key][:] = items
+            elif tag == "h":
+                if isinstance(last.get(key), list): last[key][:] = items
+        return "|".join(out) + "#" + ";".join(show_s(k) + "=" + render(v) for k, v in data.items())
     # ------------------------------------------------------------------ direct laws on the implementation
     if cmd == "law.m.gating":
         # core-metadata spec table: a field with a valid value is accepted under version mv iff it was introduced at or before mv
